@@ -104,7 +104,7 @@ func check1(c Case, mixed bool) evid.Outcome {
 }
 
 func gen(t *rapid.T) Case {
-	return Case{*hist.Gen(t, hist.Options{MaxOps: 12, BadMembers: rapid.IntRange(0, 2).Draw(t, "bad") == 0, RuntimeBad: true, ReadOnlyOps: true, ParseAfter: true, Clones: rapid.IntRange(0, 3).Draw(t, "clones") == 0})}
+	return Case{*hist.Gen(t, hist.Options{MaxOps: 12, BadMembers: rapid.IntRange(0, 2).Draw(t, "bad") == 0, RuntimeBad: true, Unbalanced: rapid.IntRange(0, 2).Draw(t, "unbalanced") == 0, ReadOnlyOps: true, ParseAfter: true, Clones: rapid.IntRange(0, 3).Draw(t, "clones") == 0})}
 }
 
 // genMixed: the K-rederive zone (a helper needed in text and in attribute contexts).
